@@ -99,7 +99,7 @@ def explore(case):
         new3, _ = alg.apply(restored, cohort)
         same(new3, new_snap, 'continuing from the restored copy gives a different state', nc)
         # (4) a fresh algorithm object replaying only this history
-        if len(h2) <= fresh_depth:
+        if len(h2) <= fresh_depth or (len(h2) == 2 and h2[1] == 'A2' and h2[0] in ('A', 'AB')):
           falg, fstate = systems.build(bname, fresh=True, **kw)
           if fresh_root[0] is not None:
             fstate = fresh_root[0](falg)
